@@ -24,7 +24,7 @@ from harness.env import stubimport, vloop
 stubimport.install()
 
 POLL = 1.0
-WATCHDOG_S = 10.0
+WATCHDOG_S = 30.0
 LIVELOCKS = {}          # backend -> number of executions that had to be cut (checks stop exploring a backend after 2)
 
 
